@@ -145,8 +145,72 @@ func (r *RootSpec) tuples(tier string) [][]int {
 const rtDecl = `
 import (
 	zzcontext "context"
+	zzsync "sync"
 	zztime "time"
 )
+
+// Model of sync.Map (engine side only): an association list per map object.
+type zzSMEntry struct{ k, v any }
+type zzSM struct{ ents []zzSMEntry }
+
+var zzSyncMaps = map[*zzsync.Map]*zzSM{}
+
+func zzSMOf(m *zzsync.Map) *zzSM {
+	if sm, ok := zzSyncMaps[m]; ok {
+		return sm
+	}
+	sm := &zzSM{}
+	zzSyncMaps[m] = sm
+	return sm
+}
+func zzSyncMapLoad(m *zzsync.Map, k any) (any, bool) {
+	for _, e := range zzSMOf(m).ents {
+		if e.k == k {
+			return e.v, true
+		}
+	}
+	return nil, false
+}
+func zzSyncMapStore(m *zzsync.Map, k, v any) {
+	sm := zzSMOf(m)
+	for i := range sm.ents {
+		if sm.ents[i].k == k {
+			sm.ents[i].v = v
+			return
+		}
+	}
+	sm.ents = append(sm.ents, zzSMEntry{k, v})
+}
+func zzSyncMapLoadOrStore(m *zzsync.Map, k, v any) (any, bool) {
+	if old, ok := zzSyncMapLoad(m, k); ok {
+		return old, true
+	}
+	zzSyncMapStore(m, k, v)
+	return v, false
+}
+func zzSyncMapDelete(m *zzsync.Map, k any) {
+	sm := zzSMOf(m)
+	for i := range sm.ents {
+		if sm.ents[i].k == k {
+			sm.ents = append(append([]zzSMEntry(nil), sm.ents[:i]...), sm.ents[i+1:]...)
+			return
+		}
+	}
+}
+func zzSyncMapLoadAndDelete(m *zzsync.Map, k any) (any, bool) {
+	v, ok := zzSyncMapLoad(m, k)
+	if ok {
+		zzSyncMapDelete(m, k)
+	}
+	return v, ok
+}
+func zzSyncMapRange(m *zzsync.Map, f func(k, v any) bool) {
+	for _, e := range append([]zzSMEntry(nil), zzSMOf(m).ents...) {
+		if !f(e.k, e.v) {
+			return
+		}
+	}
+}
 
 // Model of cancellable contexts (engine side only; the native build uses the real package).
 type zzCancelCtx struct {
